@@ -61,6 +61,25 @@ class QTensor(torch.Tensor):
     def dequantize(self):
         raise NotImplementedError
 
+    def __deepcopy__(self, memo):
+        # The default implementation clones the Tensor, then replaces the inner tensors of the clone by deep copies
+        # of the original ones: their strides can differ from those the clone declares (copy of a slice)
+        if not self.is_leaf:
+            raise RuntimeError(
+                "Only Tensors created explicitly by the user (graph leaves) support the deepcopy protocol at the moment."
+            )
+        if id(self) in memo:
+            return memo[id(self)]
+        with torch.no_grad():
+            result = self.clone()
+        if self.requires_grad:
+            result.requires_grad_()
+        if getattr(self, "_is_param", False):
+            # (a Parameter created from a Tensor subclass is an instance of that subclass, tagged as a Parameter)
+            result._is_param = True
+        memo[id(self)] = result
+        return result
+
     def save_to_state_dict(self, destination, prefix, keep_vars):
         def serialize_tensor_subclass(t, destination, prefix, keep_vars):
             inner_tensors, meta = t.__tensor_flatten__()
